@@ -71,6 +71,18 @@ def run(R, pid, tier, seed):
                           "not covered: the serve() loop (no change to the tree before a valid prologue; exit status), spinning after EOF"]
         _guard(R, pid, "frames", lambda: hublib.frame_obligations(ctx, R, prover, pid))
         _guard(R, pid, "handle_put", lambda: hublib.put_obligations(ctx, R, prover, pid, ncap))
+    # the ORDER of the real system calls (strace) of a commit / conflict / delete is checked on every run too: it holds the line when a
+    # change makes the symbolic side inconclusive
+    if pid in ("C03", "C10"):
+        try:
+            for what in (("handle_put", "handle_delete") if pid == "C03" else ("handle_put",)):
+                o = hubnative.order_check(R, "%s/native-order/%s" % (pid, what), "%s/native-order/%s" % (pid, what), what)
+                if o["confirmed"]:
+                    R.add("%s/native-order/%s" % (pid, what), "violated", confirmed=True, replay_path=o["replay_path"], key=o["key"], detail=o["detail"])
+                else:
+                    R.add("%s/native-order/%s" % (pid, what), "holds", queries=0, solver_s=0.0, detail=o["detail"] + " (validation, not the deciding step)")
+        except Inconclusive as e:
+            R.add("%s/native-order" % pid, "inconclusive", detail=str(e)[:300])
     # the abstraction is validated natively on every run; a deviation of the REAL handlers from the reference is a violation in its own right
     only = {"C03": lambda c: c["op"] in ("put", "delete"), "C10": lambda c: c["op"] in ("put", "get"), "C12": lambda c: c["op"] == "put", "C11": None}[pid]
     try:
